@@ -3,9 +3,10 @@
 SPECIFICATION Spec
 CONSTANTS Mode = "vec"
           Alpha = "quick"
-          MaxLen = 2
+          Lens = {0, 1, 2}
           SmallAlpha = "core"
-          CoreLen = 0
+          SmallLens = {}
+          Lattice = FALSE
           AsWritten = TRUE
 INVARIANTS Link
 CHECK_DEADLOCK FALSE
